@@ -113,10 +113,16 @@ class LiveHistory:
                 seen.add(tuple(it))
                 dedup.append(it)
         ev["attr_chain"] = list(reversed(dedup))
-        nonempty_updates = [r for r in hook if r["ev"] == "parsed" and r["n_changes"] > 0 and r["has_system"]]
-        ev["n_updates_with_system"] = len(nonempty_updates)
+        nonempty_updates = [r for r in hook if r["ev"] == "parsed" and r["n_changes"] > 0]
+        ev["n_updates_with_system"] = len([r for r in nonempty_updates if r["has_system"]])
+        # whether the edit is an edit of the live system is decided on the abstract model (some changed object was reachable
+        # from the system before the edit), not by asking the implementation
+        parts = edit[1] if edit[0] == "group" else [edit]
+        pre_reach = set(efx.reachable(self.model)) | {self.sysn}
+        touches_system = any(len(x) > 1 and isinstance(x[1], str) and x[1] in pre_reach for x in parts)
+        ev["touches_system"] = touches_system
         system = self.live[self.sysn]
-        if len(nonempty_updates) == 1:
+        if len(nonempty_updates) == 1 and touches_system:
             prev = (efx.project_value(ns, system.previous_total_energy_footprints_sum_over_period),
                     efx.project_value(ns, system.previous_total_fabrication_footprints_sum_over_period))
             ev["prev_totals_ok"] = totals_equal(prev, pre_totals)
